@@ -1,7 +1,8 @@
 (* C18 - Navigation and metadata: property theorems only (models: model/C18*.v, proofs: proofs/C18_*.v). *)
 From Coq Require Import ZArith List Bool String.
-Require Import WV.model.C18Bookmarks WV.model.C18Outline WV.model.C18Links WV.model.C18Date.
-Require Import WV.proofs.C18_bookmarks WV.proofs.C18_outline WV.proofs.C18_links WV.proofs.C18_date.
+Require Import WV.model.C18Bookmarks WV.model.C18Outline WV.model.C18Links WV.model.C18Date WV.model.C18Aabb.
+Require Import WV.proofs.C18_bookmarks WV.proofs.C18_outline WV.proofs.C18_links WV.proofs.C18_date WV.proofs.C18_aabb.
+From Coq Require Import QArith.
 Import ListNotations.
 Open Scope Z_scope.
 
@@ -150,3 +151,28 @@ Theorem C18_date_fields_preserved (g : groups) :
   wf g -> exists s, w3c_date_to_pdf g = inr s /\ parse_pdf_date s = Some (expected g).
 Proof. exact (date_fields_preserved g). Qed.
 Print Assumptions C18_date_fields_preserved.
+
+(* ---- 5. link / anchor rectangles under a transform: anchors.rectangle_aabb with Matrix.transform_point ----
+   in_rect (x1, y1, x2, y2) p :  x1 <= fst p <= x2 /\ y1 <= snd p <= y2 *)
+(* the rectangle written for a link covers the image of every point of the link's box ... *)
+Theorem C18_link_rectangle_covers_transformed_box (m : matrix) (x y w h s t : Q) :
+  (0 <= s <= 1 -> 0 <= t <= 1 ->
+   in_rect (rectangle_aabb (Some m) x y w h) (transform_point m (x + s * w) (y + t * h)))%Q.
+Proof. exact (aabb_contains m x y w h s t). Qed.
+Print Assumptions C18_link_rectangle_covers_transformed_box.
+
+(* ... and is the smallest axis-aligned rectangle that does *)
+Theorem C18_link_rectangle_is_smallest (m : matrix) (x y w h bx1 by1 bx2 by2 : Q) :
+  ((forall s t, 0 <= s <= 1 -> 0 <= t <= 1 ->
+      in_rect (bx1, by1, bx2, by2) (transform_point m (x + s * w) (y + t * h))) ->
+   let '(x1, y1, x2, y2) := rectangle_aabb (Some m) x y w h in
+   bx1 <= x1 /\ by1 <= y1 /\ x2 <= bx2 /\ y2 <= by2)%Q.
+Proof. exact (aabb_smallest m x y w h bx1 by1 bx2 by2). Qed.
+Print Assumptions C18_link_rectangle_is_smallest.
+
+Theorem C18_link_rectangle_without_transform (x y w h s t : Q) :
+  (0 <= w -> 0 <= h -> 0 <= s <= 1 -> 0 <= t <= 1 ->
+   in_rect (rectangle_aabb None x y w h) (x + s * w, y + t * h) /\
+   rectangle_aabb None x y w h = (x, y, x + w, y + h))%Q.
+Proof. exact (aabb_no_transform x y w h s t). Qed.
+Print Assumptions C18_link_rectangle_without_transform.
